@@ -164,7 +164,8 @@ def _assemble_cases(tier):
 
 
 ASSEMBLE_SCALES = [1e-15, 1e12]
-MOVES = ["translate", "rotate", "symmetry", "setcoord"]
+# "evaluate": no motion; the Field is used for post-processing (Evaluate_e with and without element means, Evaluate_n) between two integrations
+MOVES = ["translate", "rotate", "symmetry", "setcoord", "evaluate"]
 
 
 def _moved_cases(tier):
@@ -173,7 +174,7 @@ def _moved_cases(tier):
     out = []
     ets = ["SEG2", "TRI3", "QUAD4", "QUAD8", "TETRA4"] if tier == "quick" else list(Z.ALL_TYPES)
     for et in ets:
-        for prog in ("M[fun]", "G[fun]", "V[fun]"):
+        for prog in ("M[fun]", "G[fun]", "V[fun]") + (("Gs[fun]",) if et != "SEG2" else ()):
             for mv in MOVES:
                 for first in ((True,) if tier == "quick" else (True, False)):
                     out.append({"kind": "moved", "elemType": et, "program": prog, "move": mv, "evaluate_first": first})
@@ -219,7 +220,7 @@ def _nonsym_cases(tier):
     out = []
     ets = ["TRI3", "QUAD4", "TRI6", "QUAD8", "TETRA4", "HEXA8"] if tier == "quick" else list(Z.TYPES_2D + Z.TYPES_3D)
     for et in ets:
-        for form in ("gradAgrad", "uRv"):
+        for form in ("gradAgrad", "uRv", "Ru_v"):
             for mk in _meshkinds(et):
                 out.append({"kind": "nonsym", "form": form, "elemType": et, "mesh": mk})
     return out
@@ -251,7 +252,16 @@ def _run_nonsym(case):
         R = r.normal(size=(d, d))
         R = R + 2.0 * np.triu(np.abs(R), 1)
         field = Field(g, d, mt)
-        data = np.asarray(BiLinearForm(lambda u, v: (u() @ R).dot(v())).Integrate_e(field))
+        if form == "Ru_v":
+            # the constant tensor written on the LEFT of the bare field: (R u) . v = (u R^T) . v; the three spellings of the same form
+            # must give the same array (no freedom of transposition between them)
+            data = np.asarray(BiLinearForm(lambda u, v: (R @ u).dot(v)).Integrate_e(field))
+            alt = {"(u() @ R.T).dot(v())": np.asarray(BiLinearForm(lambda u, v: (u() @ R.T).dot(v())).Integrate_e(field)),
+                   "(R @ u()).dot(v())": np.asarray(BiLinearForm(lambda u, v: (R @ u()).dot(v())).Integrate_e(field))}
+            R = R.T
+        else:
+            data = np.asarray(BiLinearForm(lambda u, v: (u() @ R).dot(v())).Integrate_e(field))
+            alt = {}
         N = np.asarray(g.Get_N_pg(mt))[:, 0, :]  # (nPg, nPe)
         Ms = np.einsum("ep,pi,pj->eij", wJ, N, N)
         nPe = g.nPe
@@ -271,6 +281,11 @@ def _run_nonsym(case):
         et_ = np.abs(op - np.swapaxes(data, 1, 2)).max() / sc if op.shape == data.shape else np.inf
         v.append(viol("nonsymmetric_operator", f"gradAgrad on {et}/{case['mesh']}: Operators.Bilinear.GradU_A_GradV with a non-symmetric A differs from the user form "
                                                f"grad(u).A.grad(v) by {eo:.2e} (from its transpose by {et_:.2e})", **key))
+    if form == "Ru_v":
+        for txt, arr in alt.items():
+            ea = np.abs(arr - data).max() / sc if arr.shape == data.shape else np.inf
+            if ea > 1e-11:
+                v.append(viol("spellings_differ", f"Ru_v on {et}/{case['mesh']}: the form (R @ u).dot(v) integrates to another array than its spelling {txt} (rel diff {ea:.2e})", spelling=txt, **key))
     if min(e1, e2) > 1e-11:
         v.append(viol("nonsymmetric_form", f"{form} on {et}/{case['mesh']}: Integrate_e is neither the directly integrated array (rel err {e1:.2e}) nor its transpose ({e2:.2e}); "
                                            f"asymmetry of the reference {asym:.2f}", **key))
@@ -280,6 +295,8 @@ def _run_nonsym(case):
 
 def _apply_move(mesh, mv, r):
     d = mesh.dim
+    if mv == "evaluate":
+        return
     if mv == "translate":
         t = np.zeros(3)
         t[:d] = r.uniform(0.4, 0.9, size=d)
@@ -353,15 +370,30 @@ def _run_moved(case):
     base = prog[:-1].split("[")[0]
     bilinear = base != "V"
     mt = _matrix_type("mass" if base in ("M", "V") else "rigi")
-    terms = [_Term(prog, "scalar", g)]
+    vector = base in ("Mv", "L", "Gs", "E", "FV")
+    terms = [_Term(prog, "vector" if vector else "scalar", g)]
     form = _form_of(terms, bilinear=bilinear)
-    fld = Field(g, 1, mt)
+    fld = Field(g, g.dim if vector else 1, mt)
     obs = []
     for st in (["initial", mv] if first else [mv]):
         if st != "initial":
             _apply_move(mesh, mv, r)
+            if mv == "evaluate":
+                # post-processing with the same Field: values and gradients of a nodal solution, per element, per Gauss point, per node
+                vals = r.normal(size=g.Ncoords * fld.dof_n)
+                try:
+                    fld.Evaluate_e(lambda f: f.grad, vals)
+                    fld.Evaluate_e(lambda f: f.grad, vals, returnMeanValues=False)
+                    fld.Evaluate_n((lambda f: f.grad.ddot(f.grad)) if vector else (lambda f: f.grad.dot(f.grad)), vals)  # a scalar per point
+                except Exception as e:
+                    v.append(viol("evaluate_raises", f"{prog} on {et}: Field.Evaluate_e / Evaluate_n of the gradient raised {type(e).__name__}: {str(e)[:120]}", **key))
+                    break
         oracle = np.asarray(terms[0].oper(g, mt), dtype=float)
-        got = np.asarray(form.Integrate_e(fld), dtype=float)
+        try:
+            got = np.asarray(form.Integrate_e(fld), dtype=float)
+        except Exception as e:
+            v.append(viol("integrate_raises", f"{prog} on {et}, stage {st}: Integrate_e with the same Field raised {type(e).__name__}: {str(e)[:120]}", stage=st, **key))
+            break
         got = got.reshape(oracle.shape) if got.size == oracle.size else got
         obs.append(oracle)
         err = relerr(got, oracle) if got.shape == oracle.shape else np.inf
@@ -369,7 +401,7 @@ def _run_moved(case):
             v.append(viol("moved_mesh", f"{prog} on {et}, stage {st}: Integrate_e with the same Field differs from the operator evaluated on the current mesh, "
                                         f"rel err {err:.2e}", stage=st, **key))
     moved = relerr(obs[-1], obs[0]) if len(obs) > 1 else 1.0
-    return {"violations": v, "fingerprint": fp("moved", case, *obs), "nontrivial": bool(g.Ne > 1 and moved > 1e-6),
+    return {"violations": v, "fingerprint": fp("moved", case, *obs), "nontrivial": bool(g.Ne > 1 and (moved > 1e-6 or mv == "evaluate")),
             "outcome": "agree" if not v else "violation", "transitions": len(obs)}
 
 
